@@ -223,6 +223,7 @@ func TestVerifC01(t *testing.T) {
 				what = fmt.Sprintf("%s still verifies after %s: members / values that the JSON-LD context does not define are dropped by canonicalisation and are not covered by the proof, yet the node returns and stores them (the issuer's own AllFieldsDefined check refuses this document)", d.Name, m.Desc())
 			}
 			r.Outcome("tamper accepted, observation CHANGED")
+			r.Observation("accepted-with-changed-observation|"+strings.Split(cls, "|")[0]+"|"+strings.Split(op, ":")[0]+"|"+loc, d.Name+": "+m.Desc())
 			r.Violation("C01|tamper|"+cls, what, cs)
 		}
 		for _, m := range singles {
